@@ -428,7 +428,7 @@ func scripted(seed int64, G, total int, R, T time.Duration, procs int) {
 				map[string]interface{}{"signature": sig, "script": scriptNames[sc], "telegram": o.ID, "history": excerpt(log, ops, []uint32{o.ID})},
 				"[scripted] gateway behaviour %q for telegram %d: Send returned %q, the protocol rule gives %q", scriptNames[sc], o.ID, got, want)
 		}
-		if sc == 7 && len(o.Frames) < 3 {
+		if sc == 7 && len(o.Frames) < 3 && stall <= 2*R {
 			r.Violate("sender.retransmission-suppressed", map[string]string{"workload": "scripted"}, map[string]interface{}{"signature": sig, "telegram": o.ID, "copies": len(o.Frames)},
 				"[scripted] while acknowledgements for another number kept arriving, telegram %d was transmitted only %d times in a response timeout of %v (resend interval %v)", o.ID, len(o.Frames), T, R)
 		}
@@ -597,7 +597,7 @@ func run(rr *mon.Run) {
 	nScripted := r.Pick(4, 120)
 	nTCP := r.Pick(2, 40)
 	nRecon := r.Pick(2, 80)
-	for i := 0; i < nLossy; i++ {
+	for i := 0; i < nLossy && !r.Enough(); i++ {
 		G := []int{1, 2, 4, 8, 3}[i%5]
 		R := []time.Duration{2 * time.Millisecond, 5 * time.Millisecond}[i%2]
 		T := []time.Duration{40 * time.Millisecond, 100 * time.Millisecond}[(i/2)%2]
@@ -606,14 +606,14 @@ func run(rr *mon.Run) {
 	for i := 0; i < r.Pick(2, 40); i++ {
 		lossyReal(seed*1500+int64(i), []int{4, 1, 8}[i%3], 300, 3*time.Millisecond, 60*time.Millisecond)
 	}
-	for i := 0; i < nScripted; i++ {
+	for i := 0; i < nScripted && !r.Enough(); i++ {
 		G := []int{1, 4, 2, 8}[i%4]
 		scripted(seed*2000+int64(i), G, r.Pick(160, 300), 2*time.Millisecond, 40*time.Millisecond, procsList[(i+1)%4])
 	}
-	for i := 0; i < nTCP; i++ {
+	for i := 0; i < nTCP && !r.Enough(); i++ {
 		tcpMode(seed*3000+int64(i), []int{4, 1, 8}[i%3], 400, procsList[(i+2)%4])
 	}
-	for i := 0; i < nRecon; i++ {
+	for i := 0; i < nRecon && !r.Enough(); i++ {
 		reconnect(seed*4000+int64(i), i%2 == 0, procsList[(i+3)%4])
 	}
 	r.Observe("sends", totalSends)
